@@ -94,8 +94,14 @@ func (s *GenomeSpec) Build() *genetics.Genome {
 	}
 	genes := make([]*genetics.Gene, len(s.Genes))
 	for i, g := range s.Genes {
-		gn := genetics.NewGeneWithTrait(traitByID(traits, g.Trait), g.W, byID[g.In], byID[g.Out], g.Rec, g.Innov, g.Mut)
-		gn.IsEnabled = g.En
+		var gn *genetics.Gene
+		if g.Trait == 0 {
+			gn = genetics.NewGene(g.W, byID[g.In], byID[g.Out], g.Rec, g.Innov, g.Mut) // as the plain reader does for trait id 0
+		} else {
+			gn = genetics.NewGeneWithTrait(traitByID(traits, g.Trait), g.W, byID[g.In], byID[g.Out], g.Rec, g.Innov, g.Mut)
+		}
+		// the snapshot is authoritative whatever a constructor normalises
+		gn.IsEnabled, gn.Link.IsRecurrent, gn.Link.ConnectionWeight, gn.MutationNum, gn.InnovationNum = g.En, g.Rec, g.W, g.Mut, g.Innov
 		genes[i] = gn
 	}
 	if len(s.Modules) == 0 {
